@@ -108,7 +108,8 @@ Definition c13_pb (ps : pstate) (e : nevent) (o : nobs) : bool :=
   end
   (* every joined live server is discoverable from every joined live node *)
   && forallb (fun a => if p_alive (pget ps a) && p_joined (pget ps a) && negb (match main_of tabs a with [] => true | _ => false end)
-                       then forallb (fun b => if live_server ps b && p_joined (pget ps b) then mem b (reach ps tabs a) else true) (all_nodes ps)
+                       then let ra := reach ps tabs a in
+                            forallb (fun b => if live_server ps b && p_joined (pget ps b) then mem b ra else true) (all_nodes ps)
                        else true) (all_nodes ps)
   (* a lookup queries every server (every responder enters the main table of the node that asked) *)
   && match e with
